@@ -74,6 +74,10 @@ pub struct UState {
     pub objects: BTreeMap<String, Value>,
     pub log: Vec<LogEntry>,
     pub compacted_below: u64,
+    /// streaming lists: how many trailing ADDED/MODIFIED log entries are sent *after* the snapshot
+    pub stream_lag: usize,
+    pub stream_lists_served: u64,
+    pub servers_reported_twice_in_initial_events: u64,
     live: Option<u64>,
     live_ready: bool,
     next_gen: u64,
@@ -146,6 +150,9 @@ impl Universe {
             objects: BTreeMap::new(),
             log: Vec::new(),
             compacted_below: 0,
+            stream_lag: 0,
+            stream_lists_served: 0,
+            servers_reported_twice_in_initial_events: 0,
             live: None,
             live_ready: false,
             next_gen: 0,
@@ -571,12 +578,14 @@ async fn serve_watch(
 ) -> bool {
     const HEAD: &[u8] = b"HTTP/1.1 200 OK\r\nContent-Type: application/json\r\nTransfer-Encoding: chunked\r\n\r\n";
     let from_rv: u64 = params.get("resourceVersion").and_then(|s| s.parse().ok()).unwrap_or(0);
+    // streaming list: the current state arrives as watch events, closed by a marked bookmark
+    let streaming = params.get("sendInitialEvents").map(|v| v == "true").unwrap_or(false);
     let mut rx = u.tx.subscribe();
     let generation = {
         let mut st = u.lock();
         let t = st.t0.elapsed().as_millis();
         st.requests.push(format!("+{t}ms GET {target}"));
-        if from_rv < st.compacted_below {
+        if !streaming && from_rv < st.compacted_below {
             st.gone_answers += 1;
             None
         } else {
@@ -611,6 +620,66 @@ async fn serve_watch(
     }
     let mut cursor = from_rv;
     let mut tmp = [0u8; 1024];
+    if streaming {
+        let (out, head) = {
+            let mut st = u.lock();
+            // the snapshot lags behind the head by up to `stream_lag` ADDED/MODIFIED events, which
+            // follow it before the bookmark (a DELETED is never part of the initial events)
+            let mut cut = st.log.len();
+            let mut taken = 0usize;
+            while cut > 0 && taken < st.stream_lag && matches!(st.log[cut - 1].kind.as_str(), "ADDED" | "MODIFIED") {
+                cut -= 1;
+                taken += 1;
+            }
+            let mut snapshot: BTreeMap<String, Value> = BTreeMap::new();
+            for e in &st.log[..cut] {
+                match e.kind.as_str() {
+                    "BOOKMARK" => {}
+                    "DELETED" => {
+                        snapshot.remove(&name_of(&e.obj));
+                    }
+                    _ => {
+                        snapshot.insert(name_of(&e.obj), e.obj.clone());
+                    }
+                }
+            }
+            let mut out = Vec::new();
+            for obj in snapshot.values() {
+                out.extend_from_slice(&chunk(&(json!({"type": "ADDED", "object": obj}).to_string() + "\n")));
+            }
+            let mut twice = 0u64;
+            for e in &st.log[cut..] {
+                if snapshot.contains_key(&name_of(&e.obj)) {
+                    twice += 1;
+                }
+                out.extend_from_slice(&chunk(&(json!({"type": e.kind, "object": e.obj}).to_string() + "\n")));
+            }
+            let head = st.rv;
+            out.extend_from_slice(&chunk(
+                &(json!({"type": "BOOKMARK", "object": {"apiVersion": API_VERSION, "kind": "GameServer",
+                    "metadata": {"resourceVersion": head.to_string(), "annotations": {"k8s.io/initial-events-end": "true"}}}})
+                .to_string()
+                    + "\n"),
+            ));
+            st.servers_reported_twice_in_initial_events += twice;
+            (out, head)
+        };
+        if sock.write_all(&out).await.is_err() || sock.flush().await.is_err() {
+            release(u);
+            return false;
+        }
+        let now = Instant::now();
+        let mut st = u.lock();
+        st.stream_lists_served += 1;
+        for e in st.log.iter_mut().filter(|e| e.rv <= head && e.flushed_at.is_none()) {
+            e.flushed_at = Some(now);
+            e.via = "stream-list";
+        }
+        cursor = head;
+        if st.live == Some(generation) {
+            st.live_ready = true;
+        }
+    }
     loop {
         // mark the current version as seen *before* looking at the state: no lost wake-up
         rx.borrow_and_update();
